@@ -217,10 +217,29 @@ impl SkinHeaderT for SkinHeader {
 
         // For BfA and later, we have additional fields
         let (center_position, center_bounds) = if version >= 4 {
+            let fields_start = reader.stream_position()?;
             let file_size = reader.seek(SeekFrom::End(0))?;
+            reader.seek(SeekFrom::Start(fields_start))?;
 
-            // If we have more data, it's probably BfA or later
-            if file_size > reader.stream_position()? {
+            // Legion and BfA share header version 4. The BfA fields sit between the array
+            // references and the data, so they are there when the data (the first array, or
+            // the end of a file without arrays) starts at least 16 bytes behind the references
+            let first_data = [
+                (name.count, name.offset),
+                (indices.count, indices.offset),
+                (triangles.count, triangles.offset),
+                (bone_indices.count, bone_indices.offset),
+                (submeshes.count, submeshes.offset),
+                (batches.count, batches.offset),
+            ]
+            .iter()
+            .filter(|(count, _)| *count > 0)
+            .map(|(_, offset)| u64::from(*offset))
+            .min()
+            .unwrap_or(file_size)
+            .min(file_size);
+
+            if first_data >= fields_start + 16 {
                 let mut center_pos = [0.0; 3];
                 for item in &mut center_pos {
                     *item = reader.read_f32_le()?;
